@@ -684,8 +684,15 @@ def gen_C04(tier, seed):
                        "sort_by_row 0", "sort_unstable_by_row 0", "sort_by_col 0", "sort_unstable_by_col 0", "sort_by_col_key 0", "sort_row_ord 0",
                        f"set {max(cc - 1, 0)} {max(rr - 1, 0)} 4242", f"rowset {max(rr - 1, 0)} 0 4243", f"colset 0 {max(rr - 1, 0)} 4244",
                        "rows_mut n,b,N0,f", "cells_mut n,b,N1,B1,f", "col_mut 0 n,b,f", f"col_mut {max(cc - 1, 0)} r", "iter_mut f"]
+                # the same operations with arguments one past the view's edge (or far out): they must panic *and* still leave
+                # every cell outside the view alone (an unchecked access past the view's edge lands in the parent)
+                bad = [f"swap {cc} 0 0 0", f"swap 0 0 {cc} {max(rr - 1, 0)}", f"swap 0 {rr} 0 0", f"swap_rows 0 {rr}", f"swap_rows {rr} {rr}",
+                       f"swap_cols {cc} 0", f"swap_cols 0 {cc}", f"row_pair 0 {rr}", f"set {cc} 0 4250", f"set 0 {rr} 4251",
+                       f"rowset 0 {cc} 4252", f"rowset {rr} 0 4253", f"colset {cc} 0 4254", f"colset 0 {rr} 4255",
+                       f"copy_within 0 0 {cc} {rr} 1 0", f"copy_within 0 0 {cc + 1} {rr} 0 0", f"translate {cc + 1} 0", f"translate 0 {rr + 1}",
+                       f"sort_by_row {rr}", f"sort_by_col {cc}", f"col_mut {cc} n", f"col_mut 0 i{rr}"]
                 lines = []
-                for op in ops:
+                for op in ops + bad:
                     lines += [root, f"{rv} {op}"]
                 if n <= 12:
                     for mc in range(cc + 1):
